@@ -86,6 +86,11 @@ var c02 = newChk("C02", "roundtrip",
 		if p, w := refv6.Diff(t, back, true); p != "" {
 			return obs.Failf("C02/ref-readback/"+sigPath(p), "same tree", "%s: %s", p, w)
 		}
+		for _, bad := range v6Refused() {
+			if _, err := dhcpv6.FromBytes(bad); err == nil {
+				return obs.Failf("C02/harness/poison-accepted", "a malformed message is refused", "accepted %x", clipb(bad))
+			}
+		}
 		dec, err := dhcpv6.FromBytes(append([]byte{}, enc...))
 		if err != nil {
 			return obs.Failf("C02/decode-error", "library decodes its own encoding", "error %v", err)
